@@ -59,7 +59,7 @@ macro "unfold_step" " at " h:ident : tactic => `(tactic| (
     Bool.and_eq_true, Bool.or_eq_true, Bool.not_true, Bool.or_true, Bool.true_and, Bool.and_true,
     if_true, if_false, and_true, true_and, ite_true, ite_false] at $h:ident))
 
-macro "close_inv" : tactic => `(tactic| (constructor <;> (try simp_all) <;> grind))
+macro "close_inv" : tactic => `(tactic| (constructor <;> (try dsimp only) <;> grind))
 
 
 structure Inv1 (cfg : Cfg) (s : State) : Prop where
